@@ -7,6 +7,8 @@ require (
 	github.com/els0r/telemetry/logging v0.0.0-20260406010724-0c813ed6284d
 	github.com/fako1024/gotools/bitpack v0.0.0-20260108133916-d42cb4e89f05
 	github.com/fako1024/gotools/concurrency v0.0.0-20260108133916-d42cb4e89f05
+	github.com/fako1024/gotools/link v0.0.0-20260511092824-089d64760c34
+	github.com/fako1024/slimcap v1.0.12
 )
 
 require (
@@ -15,8 +17,6 @@ require (
 	github.com/cespare/xxhash/v2 v2.3.0 // indirect
 	github.com/danielgtaylor/huma/v2 v2.37.3 // indirect
 	github.com/els0r/telemetry/tracing v0.0.0-20260406010724-0c813ed6284d // indirect
-	github.com/fako1024/gotools/link v0.0.0-20260511092824-089d64760c34 // indirect
-	github.com/fako1024/slimcap v1.0.12 // indirect
 	github.com/gabriel-vasile/mimetype v1.4.13 // indirect
 	github.com/gin-contrib/pprof v1.5.4 // indirect
 	github.com/gin-contrib/sse v1.1.1 // indirect
